@@ -31,6 +31,12 @@ void exp2_type(sink& out, std::uint64_t salt)
             xs.push_back(static_cast<Rep>(v));
         }
     }
+    for (int k = 0; k <= 40; ++k) {      // small representations: the whole domain of the coarse scales (exponent >= 0)
+        xs.push_back(static_cast<Rep>(k));
+        if constexpr (std::is_signed_v<Rep>) {
+            xs.push_back(static_cast<Rep>(-k));
+        }
+    }
     for (Rep r : xs) {
         T x = cnl::_impl::from_rep<T>(r);
         T y{};
@@ -81,6 +87,14 @@ int main(int argc, char** argv)
     install();
     sink out(argv[1], std::string("\"cc\":\"") + VERIF_CC + "\"");
 #if MATH_SET == 0
+    // scales of one and coarser: every x is integral
+    exp2_type<std::int8_t, 0>(out, 100);
+    exp2_type<std::uint8_t, 1>(out, 101);
+    exp2_type<std::int16_t, 2>(out, 102);
+    exp2_type<std::int32_t, 0>(out, 103);
+    exp2_type<std::int32_t, 2>(out, 104);
+    exp2_type<std::uint32_t, 1>(out, 105);
+    exp2_type<std::uint16_t, 0>(out, 106);
     exp2_all<std::int8_t>(out, std::make_integer_sequence<int, 6>{});      // exponents -1..-6
     exp2_all<std::uint8_t>(out, std::make_integer_sequence<int, 7>{});
     const_all<std::uint8_t>(out, std::make_integer_sequence<int, 5>{});
